@@ -20,15 +20,15 @@ from ..core import HarnessError, Violation
 
 ID = "C19"
 LEVEL = "exploration"
-RULE = ("exhaustive: every (module, name) target of the mapping table is imported; generated: "
-        "Hypothesis assembles Python modules from from-imports of mapped/unmapped modules with "
-        "mapped/unmapped/mixed names, aliases, *, relative levels, single-line / parenthesised / "
-        "multi-line-with-comments / backslash styles, plain imports, assignments whose string "
-        "literals contain ; # form feeds and Unicode line separators, docstrings, def/if/try/class "
-        "blocks with indented imports, comment and blank lines; layout joins simple statements with "
-        "';', uses \\n or \\r\\n and may omit the final newline. Every module must ast.parse. "
-        "distinct = canonical JSON of the case; non-trivial = >=1 mapped top-level from-import and "
-        ">=1 other statement")
+RULE = ("exhaustive: every (module, name) target of the mapping table is imported, and a directory tree (nested "
+        "packages, hidden and __pycache__ directories, a non-Python file, an unparsable file, CRLF) is migrated through "
+        "migrate_v1_to_v2; generated: Hypothesis assembles Python modules from from-imports of mapped/unmapped modules "
+        "with mapped / unmapped / mixed names (incl. names mapped only under another v1 module), aliases, *, relative "
+        "levels, single-line / parenthesised / multi-line-with-comments / backslash styles, plain imports, assignments "
+        "whose string literals contain ; # form feeds and Unicode line separators, docstrings, def/if/try/class/with "
+        "blocks with indented imports, comment and blank lines; layout joins simple statements with ';', uses \\n or "
+        "\\r\\n and may omit the final newline. Every module must ast.parse. distinct = canonical JSON of the case; "
+        "non-trivial = >=1 mapped top-level from-import and >=1 other statement")
 ASSUMPTIONS = ["ast.parse / ast.dump (CPython) define statement identity; comments are not statements",
                "only modules that CPython parses are in the domain"]
 BUDGET = {"quick": (1500, 4), "thorough": (25000, 16)}
